@@ -20,6 +20,8 @@ pub enum Sym {
     R(u8, u32),
     /// end marker
     E,
+    /// end marker with a non-minimal match length (2..=273; E is EL(2)): the reserved distance is what ends the stream
+    EL(u32),
 }
 
 pub fn prog_str(p: &[Sym]) -> String {
@@ -37,6 +39,7 @@ pub fn prog_str(p: &[Sym]) -> String {
             Sym::S => "S".to_string(),
             Sym::R(i, l) => format!("R{}({})", i, l),
             Sym::E => "E".to_string(),
+            Sym::EL(l) => format!("E(len {})", l),
         };
         if !s.is_empty() {
             s.push(' ');
@@ -68,6 +71,8 @@ pub struct RcEnc {
     pub max_ff_run_at_carry: u64,
     /// carries that arrived while the new top byte of `low` was itself 0xFF (low >= 0x1_FF00_0000 at a shift)
     pub carry_on_ff_top: usize,
+    /// emissions of two and more bytes at once (the cached byte plus its run of pending 0xFF bytes): (offset in `out`, count)
+    pub multi_emits: Vec<(usize, usize)>,
 }
 impl Default for RcEnc {
     fn default() -> Self {
@@ -87,6 +92,7 @@ impl RcEnc {
             carries: 0,
             max_ff_run_at_carry: 0,
             carry_on_ff_top: 0,
+            multi_emits: Vec::new(),
         }
     }
     fn shift_low(&mut self) {
@@ -101,6 +107,9 @@ impl RcEnc {
                     self.carries_through_ff += 1;
                     self.max_ff_run_at_carry = self.max_ff_run_at_carry.max(self.cache_size - 1);
                 }
+            }
+            if self.cache_size > 1 {
+                self.multi_emits.push((self.out.len(), self.cache_size as usize));
             }
             let mut c = self.cache;
             loop {
@@ -326,7 +335,7 @@ impl Model {
             Sym::M(d, _) => self.ref_ok(d as u64),
             Sym::S => self.ref_ok(self.rep[0] as u64 + 1),
             Sym::R(i, _) => self.ref_ok(self.rep[i as usize] as u64 + 1),
-            Sym::E => true,
+            Sym::E | Sym::EL(_) => true,
         }
     }
     /// Encode one symbol; returns false if the symbol is an invalid reference
@@ -339,7 +348,7 @@ impl Model {
             Sym::M(..) => 1,
             Sym::S => 2,
             Sym::R(i, _) => 3 + i,
-            Sym::E => 7,
+            Sym::E | Sym::EL(_) => 7,
         };
         self.cover.state_kind.insert((self.state as u8, kind));
         match s {
@@ -398,6 +407,10 @@ impl Model {
             }
             Sym::E => {
                 self.enc_match(rc, ps, 0xFFFF_FFFF, 2);
+                true
+            }
+            Sym::EL(l) => {
+                self.enc_match(rc, ps, 0xFFFF_FFFF, l);
                 true
             }
             Sym::S => {
